@@ -1140,6 +1140,21 @@ func (interp *Interpreter) cfg(root *node, sc *scope, importPath, pkgName string
 				err = n.cfgErrorf("invalid operation: cannot send to non-channel %s", n.child[0].typ.id())
 				break
 			}
+			if n.child[0].typ.TypeOf().ChanDir() == reflect.RecvDir {
+				err = n.cfgErrorf("invalid operation: cannot send to receive-only channel %s", n.child[0].typ.id())
+				break
+			}
+			if isBlank(n.child[1]) {
+				err = n.cfgErrorf("cannot use _ as value")
+				break
+			}
+			ctyp := n.child[0].typ
+			for ctyp.cat == linkedT {
+				ctyp = ctyp.val
+			}
+			if err = check.assignment(n.child[1], ctyp.elem(), "send"); err != nil {
+				break
+			}
 			fallthrough
 
 		case declStmt, exprStmt:
